@@ -122,6 +122,14 @@ func (r *run) syncEvent(as []*actor, e Ev) {
 	calls = append(calls, r.cur.calls...)
 	started = append(started, r.cur.started...)
 	r.cur = nil
+	// local operations issued while the exchange is in flight: the request is built and sent, the
+	// answer has not been applied yet (the application works while another goroutine is in Sync())
+	for _, b := range e.Body {
+		if b.T == "local" && (e.T == "sync" || e.T == "par") {
+			r.probe("local-operation-while-sync-in-flight")
+			r.dispatch(b)
+		}
+	}
 	// responses
 	for _, c := range calls {
 		if c.state != "answered" {
